@@ -52,6 +52,21 @@ CHECKS = {
   "Lines of total length limit-2..limit+3 and 3*limit for three limits are placed at seven positions of a conversation (first line, later, MAIL line, inside an AUTH exchange, after DATA, after a non-LAST chunk, after a refused BDAT), in one and in two segments; endless LF-free input is fed in 512-octet segments while the transport counts what the server consumed before closing; every string of bounded length over nine hostile octets and seeded token soups are sent as command lines in five session states; error floods of 3..6 invalid commands in three mixes. A recovered panic in Server.ErrorLog, a crash of the child process, a wrong 500/close decision, unbounded consumption or a connection surviving the fourth invalid command is a violation.",
   "Lines of exactly limit+1 octets are not judged; BDAT payload is sent in its own segment here because payload read ahead with its command line is the C05 known finding.",
   "DESIGN.md section 5 C19"),
+ "C09": ("exploration",
+  "runtime monitoring: recording scripted SASL mechanisms on both sides, transcript equality with the wire, state checks around the exchange",
+  "Raw exchanges (0..3 challenges of arbitrary octets, every single-step deviation: empty line, bad base64, '*', 1100-octet response; initial response none / '=' / base64 / bad) are driven against the real server in every combination of TLS state, AllowInsecureAuth and backend kind, with surrounding histories (before greeting, after failure, after success, after RSET / re-EHLO, plaintext success followed by STARTTLS); the recording mechanism must see exactly the decoded octets, or nothing at all where AUTH must be unreachable. The real Client.Auth is run against the real server with recording mechanisms on both ends and against a scripted fake server (non-base64 334, 5xx at step k, early 235).",
+  "'=' as a non-initial response and nil responses from a sasl.Client are not judged.",
+  "DESIGN.md section 5 C09"),
+ "C10": ("exploration",
+  "runtime monitoring: backend event log with bait addresses, TLS record-framing monitor and plaintext-token scan on the raw client->server tap, capability view after the upgrade",
+  "Server: six pre-STARTTLS histories x four plaintext injections pipelined behind STARTTLS (same or following segment) x SMTP/LMTP, real TLS handshakes, probes inside TLS for remembered greeting, envelope, authentication and session. Client: NewClientStartTLS over the in-memory transport and DialStartTLS / SendMail / SendMailTLS over loopback TCP against scripted peers (no STARTTLS, 454, garbage after 220, injected plaintext replies, untrusted certificate, correct server with multi-line and bare EHLO replies); everything the client writes raw is checked to be TLS records after STARTTLS and scanned for envelope, credentials and body tokens.",
+  "The harness CA is made this process's system root store via SSL_CERT_FILE so that the nil-config APIs can succeed on the positive path.",
+  "DESIGN.md section 5 C10"),
+ "C12": ("exploration",
+  "runtime monitoring over the exhaustively enumerated configuration space: capability set vs reference function, one behavioural probe per extension",
+  "All 3072 configurations are instantiated as real servers; the EHLO/LHLO capability set (order-free, exact arguments) is compared with a reference function written from the statement, HELO must list nothing, every extension parameter is probed (250 iff enabled, 504 iff disabled), STARTTLS/AUTH/SIZE/RCPTMAX/BDAT are exercised, and after a successful STARTTLS the capability set is checked again for the TLS state. exhaustive=true for the configuration space; one probe input per extension.",
+  "AUTH= on servers not advertising AUTH and REQUIRETLS on plaintext connections of servers that enable it are not judged.",
+  "DESIGN.md section 5 C12"),
 }
 
 NOT_APPLICABLE = {
